@@ -122,6 +122,7 @@ class Run:
         self.hist = collections.defaultdict(collections.Counter)
         self.samples = []
         self.failures = []
+        self._fail_counts = {}
         self.notes = []
         self.rule = ''
         self.exhaustive = False
@@ -129,7 +130,7 @@ class Run:
         self.driver = os.path.join(VERIF, 'build', prop, 'driver')
         self.model_available = os.path.exists(self.driver)
         self.model_calls = 0
-        self.max_failures = 200
+        self.max_failures = 100
         self.t0 = time.time()
 
     def quick(self):
@@ -154,7 +155,11 @@ class Run:
             self.samples.append(case)
 
     def fail(self, kind, case, detail, key=None):
-        if len(self.failures) < self.max_failures:
+        # the cap is per (kind, key) class so that many correspondence disagreements (or many instances of one
+        # known finding) cannot starve a different oracle failure out of the list
+        n = self._fail_counts.get((kind, key), 0)
+        self._fail_counts[(kind, key)] = n + 1
+        if n < self.max_failures:
             self.failures.append({'kind': kind, 'case': case, 'detail': detail, 'key': key})
 
     def note(self, s):
